@@ -187,7 +187,7 @@ def run(ctx):
         # keep traces that differ only in private values in the same chunk: sort by structure
         traces.sort(key=lambda s: (repr([(k, v if k == "pub" else 0) for k, v in s["vars"]]), repr(s["cons"])))
         # large traces (more than 4096 private variables / constraints, more than 8192 variables; thorough > 65535)
-        traces = [e5.big_trace(9001, 4500, p)] + ([e5.big_trace(70001, 66000, p)] if ctx.thorough and name == "zkinterface" else []) + traces
+        traces = [e5.big_trace(nv, 7, p) for nv in (255, 256, 1023, 1024, 4095, 4096)] + [e5.big_trace(9001, 4500, p)] + ([e5.big_trace(70001, 66000, p)] if ctx.thorough and name == "zkinterface" else []) + traces
         nchunks = common.NCPU * 2
         size = (len(traces) + nchunks - 1) // nchunks
         chunks = [traces[i:i + size] for i in range(0, len(traces), size)]
